@@ -178,11 +178,11 @@ fn owns(prop: &str, clause: &str, cancel_context: bool) -> bool {
         return true;
     }
     let list: &[&str] = match prop {
-        "C01" => &["effects", "runnable-left", "events-unapplied"],
+        "C01" => &["effects", "runnable-left", "events-unapplied", "discarded-alive"],
         "C02" => &["resolve-result", "delivery"],
         "C03" => &["event-once", "event-order", "events-unapplied", "view", "reentrancy"],
-        "C04" => &["conformance", "effects", "view", "done-flag", "runnable-left", "events-unapplied"],
-        "C05" => &["conformance", "effects", "runnable-left", "events-unapplied", "view"],
+        "C04" => &["conformance", "effects", "view", "done-flag", "runnable-left", "events-unapplied", "discarded-alive", "dead-kept"],
+        "C05" => &["conformance", "effects", "runnable-left", "events-unapplied", "view", "discarded-alive"],
         "C06" => &["cancelled-polled", "discarded-alive", "effects", "conformance"],
         "C07" => &["done-flag", "dead-kept", "discarded-alive"],
         "C09" => &["bridge-ids", "bridge-bytes", "effects", "view", "resolve-result", "delivery"],
